@@ -42,11 +42,13 @@ ProgV(e) ==
       Calls == {c \in [np : 0..e.maxpos, kw : SUBSET Rng(e.kwpool)] : Cardinality(c.kw) <= e.kwmax}
       bad == Shapes(e.bad_outer) \cup Shapes(e.bad_inner)
       callee(id) == e.ws[e.wof[id]]
+      (* the reported parameter is attributed to this callee by the reported provenance (callees may share parameter names) *)
+      fromCallee(id, y) == rep.ps[y].n \notin DOMAIN rep.src \/ ("w" \o ToString(e.wof[id])) \in Rng(rep.src[rep.ps[y].n])
       (* a star that was not pristine when the call ran: the callee's parameters reachable through it must not be advertised *)
       advertisedK(id) == \E x \in DOMAIN callee(id), y \in DOMAIN rep.ps :
-                            callee(id)[x].n = rep.ps[y].n /\ callee(id)[x].k \in {"pok", "kwo"} /\ rep.ps[y].k \in {"pok", "kwo"}
+                            callee(id)[x].n = rep.ps[y].n /\ callee(id)[x].k \in {"pok", "kwo"} /\ rep.ps[y].k \in {"pok", "kwo"} /\ fromCallee(id, y)
       advertisedA(id) == \E x \in DOMAIN callee(id), y \in DOMAIN rep.ps :
-                            callee(id)[x].n = rep.ps[y].n /\ callee(id)[x].k \in {"po", "pok"} /\ rep.ps[y].k \in {"po", "pok"}
+                            callee(id)[x].n = rep.ps[y].n /\ callee(id)[x].k \in {"po", "pok"} /\ rep.ps[y].k \in {"po", "pok"} /\ fromCallee(id, y)
       usesA(id) == e.prog[id].sa \in {"own", "two"}
       usesK(id) == e.prog[id].sk \in {"own", "two"}
       (* a star that reaches a callee in a way the program text does not determine (combined with another star argument, or passed *)
@@ -57,13 +59,25 @@ ProgV(e) ==
       (* a star parameter of the function itself that the reported signature retains (named like it, sourced to the function alone) *)
       (* promises exactly what the plain signature promises -- which the property always accepts --, i.e. nothing                  *)
       ownStar(kind) == \E y \in DOMAIN rep.ps, x \in DOMAIN o : rep.ps[y].k = kind /\ o[x].k = kind /\ o[x].n = rep.ps[y].n
-                                                                 /\ rep.ps[y].n \in DOMAIN rep.src /\ rep.src[rep.ps[y].n] = <<"f1">>
+                                                                 /\ rep.ps[y].n \in DOMAIN rep.src /\ Rng(rep.src[rep.ps[y].n]) = {"f1"}
       written == UNION {Rng(e.names[x]) : x \in DOMAIN e.names}       \* a keyword the function itself writes cannot be repeated by the caller
       decidable(c) == /\ (unkA \/ ownStar("var")) => c.np <= Len(Posi(rep.ps))
                       /\ (unkK \/ ownStar("vkw")) => c.kw \subseteq KwPassable(rep.ps)
                       /\ unkA => c.np <= Len(Posi(o))
                       /\ unkK => c.kw \subseteq KwPassable(o)
                       /\ c.kw \cap written = {}
+      (* KNOWN LIMIT of discovery (finding hidden-call-merged): a call whose star the walker marked Unknown ("hide") is given a   *)
+      (* signature that retains the function's own star, i.e. "accepts anything", and is MERGED with the precise signatures of the *)
+      (* other calls -- whose parameters then stay advertised although the hidden call receives them too.  Shapes that feed a star *)
+      (* which the reference walker hides at some executed call are reported under their own clause name.                          *)
+      executed(id) == \E x \in DOMAIN e.obs_execs : e.obs_execs[x].id = id
+      hiddenA == \E x \in DOMAIN m.calls : m.calls[x].hideA /\ e.prog[m.calls[x].id].sa \in {"own", "two"} /\ executed(m.calls[x].id)
+      hiddenK == \E x \in DOMAIN m.calls : m.calls[x].hideK /\ e.prog[m.calls[x].id].sk \in {"own", "two"} /\ executed(m.calls[x].id)
+      explained(c) == (hiddenA /\ c.np > Len(Posi(o))) \/ (hiddenK /\ ~(c.kw \subseteq KwPassable(o)))
+      (* the same callee reached by ANOTHER call that forwards the star and never ran with it tainted: its parameters are advertised legitimately *)
+      otherUse(id, star) == \E j \in DOMAIN e.prog : j # id /\ e.prog[j].k = "fwd" /\ e.wof[j] = e.wof[id]
+                               /\ (IF star = "K" THEN e.prog[j].sk = "own" ELSE e.prog[j].sa = "own")
+                               /\ \A x \in DOMAIN e.obs_execs : e.obs_execs[x].id = j => (IF star = "K" THEN e.obs_execs[x].prK ELSE e.obs_execs[x].prA)
       complete == /\ e.maxpos >= SumPos(ins) + 1
                   /\ UNION {NamedNames(ins[x]) : x \in DOMAIN ins} \cup {Foreign} \subseteq Rng(e.kwpool)
   IN
@@ -74,10 +88,13 @@ ProgV(e) ==
   \cup Clause(~complete, "HARNESS_CallSetIncomplete")
   \cup Clause(rep.tag # "sig", "C07_RetrievalRaised")
   \cup (IF rep.tag = "sig" /\ ~fellBack THEN
-            Clause(\E c \in Calls : Accepts(rep.ps, c) /\ NonColliding(c, rep.ps, ins) /\ decidable(c) /\ c \in bad, "C05_AcceptedCallRaisesTypeError")
+            Clause(\E c \in Calls : Accepts(rep.ps, c) /\ NonColliding(c, rep.ps, ins) /\ decidable(c) /\ c \in bad /\ ~explained(c),
+                   "C05_AcceptedCallRaisesTypeError")
+       \cup Clause(\E c \in Calls : Accepts(rep.ps, c) /\ NonColliding(c, rep.ps, ins) /\ decidable(c) /\ c \in bad /\ explained(c),
+                   "C05_AcceptedCallRaisesTypeError_HiddenCallMerged")
        \cup Clause(\E x \in DOMAIN e.obs_execs : LET id == e.obs_execs[x].id IN
-                      \/ (~e.obs_execs[x].prK /\ usesK(id) /\ advertisedK(id))
-                      \/ (~e.obs_execs[x].prA /\ usesA(id) /\ advertisedA(id)), "C05_TaintedStarAdvertised")
+                      \/ (~e.obs_execs[x].prK /\ usesK(id) /\ advertisedK(id) /\ ~otherUse(id, "K"))
+                      \/ (~e.obs_execs[x].prA /\ usesA(id) /\ advertisedA(id) /\ ~otherUse(id, "A")), "C05_TaintedStarAdvertised")
         ELSE {})
   (* C06 on programs without taint statements: discovered = declared, in parameters and provenance; the plain signature when *)
   (* nothing usable remains or the declaration cannot be honoured                                                           *)
